@@ -10,6 +10,7 @@ import DvcData.Model.Transfer
 import DvcData.Model.IndexDiff
 import DvcData.Model.IndexCheckout
 import DvcData.Model.IndexSave
+import DvcData.Model.Staging
 import DvcData.Model.State
 import DvcData.Model.Store
 import DvcData.Model.Checkout
@@ -383,6 +384,20 @@ def opIndexSave (j : Lean.Json) : Except String Lean.Json := do
           ("bytes", String.ofList (Tree.asBytes false (IndexSave.treeBelow idx e.1)))]).toArray),
       ("file_oids", Lean.Json.arr ((IndexSave.fileOids idx).map fun o => Lean.Json.str (String.ofList o)).toArray),
       ("idempotent", .bool (IndexSave.saveDirs md5Chars saved == saved))])
+
+/-- several `build()` calls for one store (each with its own reference table), then transfers out of them, against the
+    workspace as it is at transfer time: the file objects the store holds afterwards (oid, md5 of the bytes filed under it) -/
+def opStaging (j : Lean.Json) : Except String Lean.Json := do
+  let fsOf (a : Lean.Json) : Except String Staging.Fs := do
+    (← a.getArr?).toList.mapM fun e => do
+      pure ((← (← e.getArrVal? 0).getStr?).toList, ← unhex (← (← e.getArrVal? 1).getStr?))
+  let now ← fsOf (← j.getObjVal? "fs_now")
+  let steps ← (← arr j "transfers").toList.mapM fun t => do
+    let staged ← fsOf (← t.getObjVal? "staged")
+    pure (staged, ← strList t "oids")
+  let store := steps.foldl (fun st (x : Staging.Fs × List String) =>
+    Staging.transferStaged now (Staging.stage md5Of x.1 (x.1.map (·.1))) x.2 st) ([] : Staging.Store)
+  pure (Lean.Json.mkObj [("store", Lean.Json.arr (store.map fun e => Lean.Json.arr #[.str e.1, .str (md5Of e.2)]).toArray)])
 
 def optEntryOf (j : Lean.Json) : Except String (Option MetaInfo.Entry) :=
   match j with | .null => pure none | j => do pure (some (← entryOf j))
@@ -774,6 +789,7 @@ def dispatch (j : Json) : Except String Json := do
   | "index_diff" => opIndexDiff j
   | "diff_entry" => opDiffEntry j
   | "index_save" => opIndexSave j
+  | "staging" => opStaging j
   | "idx_checkout" => opIdxCheckout j
   | "state_history" => opStateHistory j
   | "store_history" => opStoreHistory j
